@@ -206,6 +206,11 @@ fn clvm_tree_to_lazy_node(obj: Bound<'_, PyAny>) -> PyResult<LazyNode> {
         },
     }
 
+    // identity_map is keyed by object address: every object whose address is
+    // recorded must stay alive until we are done, or a later (fresh) object
+    // may be allocated at the same address and be mistaken for it
+    let mut keep_alive: Vec<Bound<'_, PyAny>> = Vec::new();
+
     let root_ptr = obj.as_ptr() as usize;
     let mut stack: Vec<WorkItem<'_>> = vec![WorkItem::Visit(obj)];
 
@@ -217,6 +222,7 @@ fn clvm_tree_to_lazy_node(obj: Bound<'_, PyAny>) -> PyResult<LazyNode> {
                 if identity_map.contains_key(&id) {
                     continue;
                 }
+                keep_alive.push(pyobj.clone());
 
                 let atom_val: Option<Vec<u8>> = pyobj.getattr("atom")?.extract()?;
 
